@@ -1,0 +1,19 @@
+//go:build verif
+
+package index
+
+// Contracts for the gvc verifier (/verif). Comment-only; never compiled into
+// a normal build.
+
+// SkipUnless: an entry keeps its worktree file exactly when its path lies
+// inside one of the selected directories by whole path components
+// (property C32; same predicate as Worktree.checkKeepResetConflicts).
+//gvc:func (*Index).SkipUnless
+//gvc:  props C32
+//gvc:  theory int
+//gvc:  requires entries: forall(a, 0, len(i.Entries), i.Entries[a] != nil)
+//gvc:  loop 1 invariant done: forall(a, 0, it1, i.Entries[a].SkipWorktree == !exists(b, 0, len(patterns), has_prefix(i.Entries[a].Name, patterns[b]) && (len(i.Entries[a].Name) == len(patterns[b]) || i.Entries[a].Name[len(patterns[b])] == '/')))
+//gvc:  loop 1 invariant frame: len(i.Entries) == old(len(i.Entries))
+//gvc:  loop 2 invariant found: include == exists(b, 0, it2, has_prefix(e.Name, patterns[b]) && (len(e.Name) == len(patterns[b]) || e.Name[len(patterns[b])] == '/'))
+//gvc:  ensures component: forall(a, 0, len(i.Entries), i.Entries[a].SkipWorktree == !exists(b, 0, len(patterns), has_prefix(i.Entries[a].Name, patterns[b]) && (len(i.Entries[a].Name) == len(patterns[b]) || i.Entries[a].Name[len(patterns[b])] == '/')))
+//gvc:end
